@@ -16,6 +16,6 @@ Why the existing tests do not settle it: {p['why_tests_cant']}
 
 YOUR TASK: make a change to the library source (files under {wt}/repid/) that BREAKS this property, while the package still imports and the existing test suite still passes exactly as before (all 194). The change must look like a realistic regression (a refactor, an 'optimisation', an off-by-one, a reordered await, a changed comparison, a dropped branch, state shared where it should not be ...), and it must be SUBTLE: it should need something specific to manifest — a particular interleaving or timing, a cancellation/crash/fault at a particular point, a multi-step sequence of operations, an unusual or boundary input, or two cooperating sites that each look fine alone. Do NOT make a change that ordinary use would expose at once (e.g. every job failing).
 
-Also write a demonstration {wt}/demo.py: a standalone script (run as `cd {wt} && PYTHONPATH={wt} /venv/bin/python demo.py`) that exits 0 on the UNCHANGED tree and exits non-zero (printing what went wrong) WITH your change. Verify both: use `git stash` / `git stash pop` (or `git diff > patch.diff; git checkout -- repid; ...; git apply patch.diff`) to run demo.py and the test suite on both versions. The demo should finish in well under a minute.
+Also write a demonstration {wt}/demo.py: a standalone script (run as `cd {wt} && PYTHONPATH={wt} /venv/bin/python demo.py`) that exits 0 on the UNCHANGED tree and exits non-zero (printing what went wrong) WITH your change. Verify both: use `git diff -- repid > patch.diff; git checkout -- repid; ...; git apply patch.diff` to run demo.py and the test suite on both versions. NEVER use `git stash`: the stash is shared between all worktrees of this repository and other people are working in sibling worktrees. The demo should finish in well under a minute.
 
 Deliverables, all inside {wt}: patch.diff (output of `git diff -- repid`, must apply with `git apply` to the unchanged tree), demo.py, and leave the change applied in the working tree. Do not commit. Finish with a short report: what you changed and why it looks innocent, which clause of the property it breaks, exactly what is needed for it to manifest, and the commands you ran with their results (test suite with the change: N passed; demo without change: exit 0; demo with change: exit code and message).""")
